@@ -5,11 +5,6 @@ open SkVerif SkVerif.Panel SkVerif.Panel.Spec
 
 variable {ν α : Type}
 
-/-- rows of the long table `from_nested_to_long` builds for panel `X`: the molten canonical
-multi-index frame -/
-def longRowsM (names : List ν) (X : Arr3 α) : List (Int × Int × ν × α) :=
-  (melt names (miRows X)).map (fun e => (e.1.1.1, e.1.1.2, e.1.2, e.2))
-
 /-- C7: `from_nested_to_long` melts the multi-index frame of the same panel -/
 theorem fromNestedToLong_ok (reserved : ν → Bool) {n c t : Nat} {X : Arr3 α} (hX : Rect3 n c t X)
     (hn : 0 < n) (hc : 0 < c) (names : List ν) (hl : names.length = c) (k : Bool)
